@@ -211,7 +211,7 @@ func (e *Engine) execRangeMap(st *State, n *ast.RangeStmt, cx *Ctx, lc *LoopCont
 	if valObj != nil {
 		body.vars[valObj] = e.cellToValue(body, e.mapCell(body, m, k), mt.Elem())
 	}
-	inner := &Ctx{fnContract: cx.fnContract, loopOrd: cx.loopOrd, closureOrd: cx.closureOrd, results: cx.results, defers: cx.defers}
+	inner := &Ctx{fnContract: cx.fnContract, loopOrd: cx.loopOrd, ifOrd: cx.ifOrd, closureOrd: cx.closureOrd, results: cx.results, defers: cx.defers}
 	iterStart := body.clone()
 	out := e.execBlock(body, n.Body.List, inner)
 	back := e.merge(append([]*State{out}, inner.continues...))
